@@ -343,12 +343,12 @@ def check_C08(ctx):
             add_group(lit, a, 'in-pool')
     for _ in range(ctx.n(600, 20000)):
         k = ctx.rng.choice(['ints', 'doubles', 'strings'])
-        n = ctx.rng.randint(1, 5)
+        n = ctx.rng.choice([1, 2, 3, 4, 5, 8, 9, 12, 17])
         if k == 'ints':
-            l = [str(ctx.rng.choice([0, 1, 2, 5, 7, 100, 2**53, 2**53 + 1, 2**63 - 1])) for _ in range(n)]
+            l = [str(ctx.rng.choice([0, 1, 2, 3, 4, 5, 6, 7, 9, 12, 19, 21, 40, 64, 88, 100, 2**53, 2**53 + 1, 2**63 - 1])) for _ in range(n)]
             a = ctx.rng.choice([I(int(ctx.rng.choice(l))), F(float(ctx.rng.choice(l))), ('i32', ctx.rng.choice([0, 1, 2, 5, 7])), ('i64', int(ctx.rng.choice(l))), F(1.5), I(3), S('1')])
         elif k == 'doubles':
-            l = [ctx.rng.choice(['0.5', '1.0', '1.5', '2.0', '2.50', '100.25', '1.0e2', '0.1']) for _ in range(n)]
+            l = [ctx.rng.choice(['0.5', '1.0', '1.5', '2.0', '2.50', '100.25', '1.0e2', '0.1', '3.5', '7.25', '19.0', '40.5', '64.0', '88.0']) for _ in range(n)]
             a = ctx.rng.choice([F(float(ctx.rng.choice(l))), I(1), I(2), I(100), F(0.3), ('i64', 1), S('1.5')])
         else:
             l = [rand_str(ctx.rng, 3) for _ in range(n)]
